@@ -44,6 +44,7 @@ LEVEL_TEXT = (
     "cells are outside this property."
     " Link tables are also evaluated with links as lists and 0/1 reverse flags, the self-link under every Grid-level default, and source arrays are never written in place."
 )
+LEVEL_TEXT += ' Also decided (sixth seeded round): two target faces reading one source face across links of every ordered pair of distinct kinds; a third padded axis declared before the horizontal ones.'
 LEVEL_NOTE = "Trusted: xarray isel/rename/concat semantics; orientation-map geometry; square faces."
 
 W = Lin.sym("w")
